@@ -54,7 +54,9 @@ def integrate(fr, axis='t', mode='mean', normalize=False, as_frame=False):
                                 fch1=fr.fmid,
                                 ascending=fr.ascending,
                                 data=data,
-                                seed=fr.rng)
+                                seed=fr.rng,
+                                t_start=fr.t_start,
+                                source_name=fr.source_name)
         else:
             # Spectrum
             new_fr = Spectrum(df=fr.df,
@@ -62,7 +64,9 @@ def integrate(fr, axis='t', mode='mean', normalize=False, as_frame=False):
                               fch1=fr.fch1,
                               ascending=fr.ascending,
                               data=data,
-                              seed=fr.rng)
+                              seed=fr.rng,
+                              t_start=fr.t_start,
+                              source_name=fr.source_name)
         return new_fr
     else:
         return data.flatten()
